@@ -409,8 +409,32 @@ def s_sel_same_typed(rng, nval):
     return _mk(prog, "cond_value_same_type_two_producers", rng, nval, edges={"x": list(range(-6, 16))})
 
 
+def s_logic_chain_same_typed(rng, nval):
+    """&& / || chains (folded into one multi-row decider) whose rows compare two DIFFERENT inputs of one signal type:
+    every row has to read its own operand from the wire that delivers it."""
+    types = gen.Types(rng)
+    t = types.fresh()
+    prog = [["input", "a", t, rng.randint(-3, 12)], ["input", "b", t, rng.randint(-3, 12)],
+            ["input", "c", types.fresh(), rng.randint(-3, 12)]]
+    lg = rng.choice(["&&", "||"])
+    k1, k2 = rng.randint(-2, 9), rng.randint(-2, 9)
+    rows = [["c", rng.choice(CMP_OPS), ["v", "a"], ["n", k1]], ["c", rng.choice(CMP_OPS), ["v", "b"], ["n", k2]]]
+    if rng.random() < 0.4:
+        rows.append(["c", rng.choice(CMP_OPS), ["v", "c"], rng.choice([["v", "a"], ["n", rng.randint(0, 5)]])])
+    rng.shuffle(rows)
+    chain = rows[0]
+    for r_ in rows[1:]:
+        chain = [lg, chain, r_]
+    val = rng.choice([["n", rng.randint(2, 9)], ["v", "c"], ["v", "b"]])
+    prog.append(["sig", "x", ["p", ["s", chain, val], types.fresh()]])
+    if rng.random() < 0.5:
+        prog.append(["sig", "y", ["p", chain, types.fresh()]])
+    edges = {"a": list(range(-4, 12)), "b": list(range(-4, 12)), "c": list(range(-4, 12))}
+    return _mk(prog, "logic_chain_same_typed_rows", rng, nval, edges=edges)
+
+
 STRATA = [
-    (s_op_single, 6), (s_prec_pairs, 6), (s_power_chain, 1), (s_dag_distinct, 8), (s_dag_same, 2),
+    (s_logic_chain_same_typed, 3), (s_op_single, 6), (s_prec_pairs, 6), (s_power_chain, 1), (s_dag_distinct, 8), (s_dag_same, 2),
     (s_two_producers, 3), (s_self_both, 1), (s_wire_merge, 2), (s_wire_merge_repeat, 1), (s_merge_operand, 1), (s_logic_chain, 4), (s_logic_nearbool, 3), (s_unary, 1),
     (s_proj, 2), (s_sel, 3), (s_sel_same_typed, 3), (s_const_heavy, 2), (s_untyped, 1), (s_literal_left, 1),
 ]
